@@ -69,3 +69,108 @@ Theorem C07_candidates_no_error : forall g wts, simple_graph g -> positive_weigh
   (forall picks fvs, greedy_fvs g picks = FvsOk fvs -> exists trees cs, fvs_cycles_Z g wts picks = CdOk (trees, cs)).
 Proof. exact C14_total. Qed.
 Print Assumptions C07_candidates_no_error.
+
+(* ---- clause "overflows a signed integer": the int instantiation of bidirectional_signed_dijkstra / mcb_sva_signed -------
+   The Z model (SignedModel.v / SignedZModel.v) describes the C++ instantiated with `int` weights only as long as no sum
+   formed with closed_plus / += leaves the int range.  OverflowProofs3.v / OverflowProofs4.v restate the model functions
+   with a TRACE — X_tr returns (result of X, list of every sum X forms, including the ones that are computed and then
+   dropped) — prove that the first component IS the model (erasure), and bound every element of the trace.
+   With  S = wsum g wts  (sum of all edge weights)  and  wmax = the largest edge weight  (wmax <= S):
+
+   C07_overflow_search   one call of bidirectional_signed_dijkstra on a simple graph with positive weights, two different
+                         signed end vertices and a weight limit that is absent or <= S (inside mcb_sva_signed it is the
+                         weight of a simple cycle found before): every sum — c = d_u + w(e), path_distance = c + dist_other,
+                         find_min + find_min of the stop test, cycle_weight += w(e) of both reconstruction loops — lies in
+                         [0, 2S + 2wmax] (hence <= 4S); the values stored in f_dist lie in [0, 2S + wmax], the settled ones
+                         in [0, 2S] (C07_overflow_fdist, for every state satisfying the frontier invariant finv).
+   C07_overflow_total    a whole run of mcb_sva_signed on a valid input: every sum formed is in [0, 2S + 2wmax] (searches,
+                         and w' = w + w(se) of the hidden-edge heuristic, which is even <= S) or is a running total
+                         mcb_weight += w; the running totals increase from 0 to the returned total, which is the weight of
+                         EVERY minimum cycle basis of g, and is <= N * S for N = dimension of the cycle space (each emitted
+                         cycle weighs <= S).
+
+   PRECONDITION for int weights, in plain words:   2 * sum(w) + 2 * max(w) <= INT_MAX   and
+   weight of a minimum cycle basis <= INT_MAX   (implied by  max(4, N) * sum(w) <= INT_MAX, C07_overflow_total_coarse).
+   Under it every sum is in [0, INT_MAX], closed_plus(a, b) = a + b (its `inf` guard can only fire when one operand is INT_MAX and the other is 0),
+   and the int run is the Z model's run; with "< INT_MAX" instead of "<=" no sum can equal the sentinel
+   numeric_limits<int>::max() either.  The Z model says NOTHING about int inputs outside this precondition.
+   The bound 2 * sum(w) <= INT_MAX alone is NOT enough for the running total: C07_overflow_2S_not_enough (K7, all weights
+   51130563: 2S = INT_MAX - 1, returned total 45 * 51130563 > INT_MAX).  For the sums inside a search no input exceeding
+   2S was found, but the proved bound is 2S + 2wmax. *)
+From Parmcb Require Import SignedProofs2 BidirProofs1 OverflowProofs1 OverflowProofs3 OverflowProofs4 OverflowProofs5.
+
+Theorem C07_overflow_search : forall (P : sparams Z) s spos t tpos (M : Z),
+  simple_graph (sp_g Z P) -> positive_weights (sp_g Z P) (sp_wts Z P) ->
+  s < nv (sp_g Z P) -> t < nv (sp_g Z P) ->
+  signed_id (nv (sp_g Z P)) s spos <> signed_id (nv (sp_g Z P)) t tpos ->
+  (forall l, sp_limit Z P = Some l -> (l <= wsum (sp_g Z P) (sp_wts Z P))%Z) ->
+  fst (bidirectional_tr P s spos t tpos) = bidirectional_signed_dijkstra Z 0%Z Z.add Z.ltb P s spos t tpos
+  /\ Forall (fun v => (0 <= v <= 2 * wsum (sp_g Z P) (sp_wts Z P) + 2 * wmax (sp_wts Z P))%Z)
+            (snd (bidirectional_tr P s spos t tpos))
+  /\ (2 * wsum (sp_g Z P) (sp_wts Z P) + 2 * wmax (sp_wts Z P) <= 4 * wsum (sp_g Z P) (sp_wts Z P))%Z
+  /\ ((2 * wsum (sp_g Z P) (sp_wts Z P) + 2 * wmax (sp_wts Z P) <= M)%Z ->
+      Forall (fun v => (0 <= v <= M)%Z) (snd (bidirectional_tr P s spos t tpos))).
+Proof. exact ov_overflow_search. Qed.
+Print Assumptions C07_overflow_search.
+
+Theorem C07_overflow_fdist : forall (P : sparams Z) done s fr u d,
+  simple_graph (sp_g Z P) -> positive_weights (sp_g Z P) (sp_wts Z P) ->
+  finv P done s fr -> fdist fr u = Some d ->
+  (0 <= d <= 2 * wsum (sp_g Z P) (sp_wts Z P) + wmax (sp_wts Z P))%Z
+  /\ (settled fr u -> (d <= 2 * wsum (sp_g Z P) (sp_wts Z P))%Z).
+Proof. exact ov_fdist_entries. Qed.
+Print Assumptions C07_overflow_fdist.
+
+Theorem C07_overflow_total : forall (g : graph) (wts : list Z) (roots eord : list nat),
+  simple_graph g -> positive_weights g wts -> (forall v, v < nv g -> In v roots) ->
+  exists cycles total sup,
+    mcb_sva_signed_Z g wts roots eord = SvaOk cycles total sup
+    /\ fst (mcb_sva_signed_Z_tr g wts roots eord) = mcb_sva_signed_Z g wts roots eord
+    /\ min_cycle_basis g wts cycles /\ has_cycle_space_dimension g (length cycles)
+    /\ total = total_weight wts cycles
+    /\ (forall B', min_cycle_basis g wts B' -> total_weight wts B' = total)
+    /\ Forall (fun c => (0 <= weight wts c <= wsum g wts)%Z) cycles
+    /\ (0 <= total <= Z.of_nat (length cycles) * wsum g wts)%Z
+    /\ Forall (fun v => (0 <= v <= 2 * wsum g wts + 2 * wmax wts)%Z \/ (0 <= v <= total)%Z)
+              (snd (mcb_sva_signed_Z_tr g wts roots eord))
+    /\ forall M, (2 * wsum g wts + 2 * wmax wts <= M)%Z -> (total <= M)%Z ->
+         Forall (fun v => (0 <= v <= M)%Z) (snd (mcb_sva_signed_Z_tr g wts roots eord)).
+Proof. exact ov_overflow_total. Qed.
+Print Assumptions C07_overflow_total.
+
+Theorem C07_overflow_total_coarse : forall (g : graph) (wts : list Z) (roots eord : list nat) (M : Z),
+  simple_graph g -> positive_weights g wts -> (forall v, v < nv g -> In v roots) ->
+  exists cycles total sup,
+    mcb_sva_signed_Z g wts roots eord = SvaOk cycles total sup
+    /\ has_cycle_space_dimension g (length cycles)
+    /\ ((Z.max 4 (Z.of_nat (length cycles)) * wsum g wts <= M)%Z ->
+        Forall (fun v => (0 <= v <= M)%Z) (snd (mcb_sva_signed_Z_tr g wts roots eord)) /\ (total <= M)%Z).
+Proof. exact ov_overflow_total_coarse. Qed.
+Print Assumptions C07_overflow_total_coarse.
+
+(* non-vacuity: K4 with unit weights satisfies the hypotheses and the int precondition; its trace is computed
+   (47 sums; S = 6, wmax = 1, every search sum <= 3 <= 2S + 2wmax = 14, running totals 3, 6, 9) *)
+Example C07_overflow_nonvacuous :
+  simple_graph sg_k4 /\ positive_weights sg_k4 sg_k4_wts /\ (forall v, v < nv sg_k4 -> In v sg_k4_roots) /\
+  (2 * wsum sg_k4 sg_k4_wts + 2 * wmax sg_k4_wts <= 2147483647)%Z /\
+  (Z.max 4 3 * wsum sg_k4 sg_k4_wts <= 2147483647)%Z /\
+  snd (mcb_sva_signed_Z_tr sg_k4 sg_k4_wts sg_k4_roots sg_k4_eord)
+  = [1; 1; 1; 2; 1; 2; 2; 1; 2; 3; 3; 1; 1; 1; 2; 2; 1; 2; 3; 1; 1; 1; 1; 2; 2;
+     1; 2; 3; 6; 1; 1; 1; 2; 2; 1; 2; 3; 1; 1; 1; 1; 2; 2; 1; 2; 3; 9]%Z.
+Proof.
+  split; [exact sg_k4_simple|]. split; [exact sg_k4_positive|]. split; [exact sg_k4_roots_cover|].
+  destruct ov_k4_trace as (Et & ES & EW). rewrite ES, EW. split; [discriminate|]. split; [discriminate|exact Et].
+Qed.
+
+(* 2 * sum(w) <= INT_MAX does not bound the running total: K7 with 21 equal weights *)
+Example C07_overflow_2S_not_enough :
+  simple_graph ov_k7 /\ positive_weights ov_k7 ov_k7_wts /\ (forall v, v < nv ov_k7 -> In v ov_k7_roots) /\
+  (2 * wsum ov_k7 ov_k7_wts <= 2147483647)%Z /\
+  exists cycles sup,
+    mcb_sva_signed_Z ov_k7 ov_k7_wts ov_k7_roots ov_k7_eord = SvaOk cycles 2300875335%Z sup
+    /\ length cycles = 15 /\ (2147483647 < 2300875335)%Z.
+Proof.
+  split; [exact ov_k7_simple|]. split; [exact ov_k7_positive|]. split; [exact ov_k7_roots_cover|].
+  split; [rewrite (proj1 ov_k7_sums); discriminate|].
+  destruct ov_k7_run as (cycles & sup & E & L). exists cycles, sup. split; [exact E|]. split; [exact L|reflexivity].
+Qed.
